@@ -1918,6 +1918,14 @@ class DerivIntExchange(Rule):
         }
 
     def eval(self, e: Expr, ctx: Context) -> Expr:
+        # The exchange is only valid if the limits of integration do not depend
+        # on the variable of differentiation (otherwise boundary terms appear).
+        if e.is_deriv() and e.body.is_integral() and \
+                (e.body.lower.contains_var(e.var) or e.body.upper.contains_var(e.var)):
+            return e
+        if e.is_integral() and e.body.is_deriv() and \
+                (e.lower.contains_var(e.body.var) or e.upper.contains_var(e.body.var)):
+            return e
         if e.is_deriv() and e.body.is_integral():
             return Integral(e.body.var, e.body.lower, e.body.upper, Deriv(e.var, e.body.body))
         elif e.is_deriv() and e.body.is_indefinite_integral():
@@ -1925,7 +1933,7 @@ class DerivIntExchange(Rule):
         elif e.is_indefinite_integral() and e.body.is_deriv():
             return Deriv(e.body.var, IndefiniteIntegral(e.var, e.body.body, e.skolem_args))
         elif e.is_integral() and e.body.is_deriv():
-            return Deriv(e.body.var, Integral(e.var, e.upper, e.lower, e.body.body))
+            return Deriv(e.body.var, Integral(e.var, e.lower, e.upper, e.body.body))
         else:
             return e
 
